@@ -36,6 +36,24 @@ class Real(object):
             self.next_id += 1
         return self.ids[k]
 
+    def detached(self):
+        """items this history has seen that are not in the section now (deleted or replaced earlier)"""
+        inside = set(id(x) for x in list.__iter__(self.sec))
+        return [it for it in self.keep if id(it) not in inside and isinstance(it, HeaderItem)]
+
+    def take(self, e):
+        """the item an adding operation puts in: a fresh one named e['n'], or - when the event asks for it and there is one - an item
+        that was taken out of the section earlier in this history and still carries the session mnemonic it had then (':2', ...).
+        Putting it back is an insertion like any other: the event logs its original mnemonic as the name and its old identity."""
+        if e.get("reuse"):
+            d = self.detached()
+            if d:
+                it = d[e["reuse"] % len(d)]
+                e["n"] = it.original_mnemonic
+                e["re"] = True
+                return it, self.ident(it)
+        return self.new(e["n"])
+
     def new(self, name):
         if self.kind == "curve":
             it = CurveItem(name, value=0, data=[1.0, 2.0])
@@ -68,12 +86,12 @@ class Real(object):
         sec = self.sec
         try:
             if op == "append":
-                it, nid = self.new(e["n"])
-                ev.update(n=e["n"], nid=nid)
+                it, nid = self.take(e)
+                ev.update(n=e["n"], nid=nid, re=bool(e.get("re")))
                 sec.append(it)
             elif op == "insert":
-                it, nid = self.new(e["n"])
-                ev.update(n=e["n"], nid=nid, i=e["i"])
+                it, nid = self.take(e)
+                ev.update(n=e["n"], nid=nid, i=e["i"], re=bool(e.get("re")))
                 sec.insert(e["i"], it)
             elif op == "delidx":
                 ev.update(i=e["i"])
@@ -349,6 +367,8 @@ def random_histories(ctx, rng, n, maxops, names, kind="header", read_case=None):
             ln = len(sess)
             if op in ("append", "insert", "setitem", "setidx"):
                 e["n"] = rng.choice(names)
+            if op in ("append", "insert") and rng.random() < 0.3:
+                e["reuse"] = rng.randint(1, 1000)        # put back an item deleted earlier in this history, if there is one
             if op in ("insert", "delidx", "setidx"):
                 e["i"] = rng.randint(-ln - 1, ln + 1)
             if op == "delslice":
